@@ -375,7 +375,14 @@ var trees = []tree{
 	{"d/e/f": "xyz", "d/g": "", "h": big(5000)},
 	{"e/": "", "f": "x"},
 	{"big": big(70 * 1024), "d/small": "s"}, // larger than io.Copy's 32 KiB transfer buffer: several Read/Write rounds
+	// siblings whose names differ by a typical scratch suffix, the suffixed one created FIRST (a memory
+	// source lists in creation order): a writer that stages its data under a derived sibling name
+	// destroys a real file
+	{"k.tmp": "T1", "k": "K", "m~": "T2", "m": "M", "n.new": "T3", "n": "N", "p.part": "T4", "p": "P", "q.bak": "T5", "q": "Q"},
 }
+
+// createdDescending: trees that are built in descending name order (see above).
+func createdDescending(t tree) bool { _, ok := t["k.tmp"]; return ok }
 
 func build(fs filesystem.Filespace, t tree) error {
 	var ps []string
@@ -383,6 +390,9 @@ func build(fs filesystem.Filespace, t tree) error {
 		ps = append(ps, p)
 	}
 	sort.Strings(ps)
+	if createdDescending(t) {
+		sort.Sort(sort.Reverse(sort.StringSlice(ps)))
+	}
 	for _, p := range ps {
 		if strings.HasSuffix(p, "/") {
 			if err := fs.MkdirAll(strings.TrimSuffix(p, "/"), 0777); err != nil {
@@ -1045,7 +1055,7 @@ func replay(wj json.RawMessage) (*fw.Violation, error) {
 
 func init() {
 	fw.Register(&fw.Check{ID: "C04", Level: "fault_enumeration",
-		Rule: "streams: backends{mem,disk,enc-mem,enc-disk,cache-mem} x contents{'', 'x', 'xyz', 5KiB} x every split into <=3 chunks (incl. empty chunks; fixed cut points for the long content; all chunks through Write, and Write / io.WriteString / io.Copy in turn on one handle) x previous destination{absent,empty,shorter,longer,equal,directory} x read buffers{1,2,3,4096} (Read loop; io.Copy; a header taken with Read followed by io.Copy); two writers (then two readers) open at the same time on every backend pair, fed in alternation from one re-used caller buffer, both close orders, contents up to 40 KiB; copy helpers {fshelper.Copy, Copier.Do(dir), Copier.Do(file), StreamCopy} x 5 tree shapes (one with a 70 KiB file, i.e. several rounds of the 32 KiB copy loop) x all 25 source/destination backend pairs, fault-free over 5 destination pre-states (empty, same paths with older longer/shorter content, unrelated nodes, regular files where the source has directories, directories where the source has files: nil result => every source node present with its kind and bytes) and with EVERY single numbered call (open/Read/Write/Close/MkdirAll/ReadDir/IsFile/IsDir/Filespace, on source and destination; error and short-write variants) failing, for encrypted backends also with the failing layer below the encryption; thorough adds every pair of failing calls (memory) and preemption bound 2 for the concurrent tree copy. distinct = cases; all run the real code",
+		Rule: "streams: backends{mem,disk,enc-mem,enc-disk,cache-mem} x contents{'', 'x', 'xyz', 5KiB} x every split into <=3 chunks (incl. empty chunks; fixed cut points for the long content; all chunks through Write, and Write / io.WriteString / io.Copy in turn on one handle) x previous destination{absent,empty,shorter,longer,equal,directory} x read buffers{1,2,3,4096} (Read loop; io.Copy; a header taken with Read followed by io.Copy); two writers (then two readers) open at the same time on every backend pair, fed in alternation from one re-used caller buffer, both close orders, contents up to 40 KiB; copy helpers {fshelper.Copy, Copier.Do(dir), Copier.Do(file), StreamCopy} x 6 tree shapes (one with a 70 KiB file, i.e. several rounds of the 32 KiB copy loop; one with sibling names that differ by a scratch suffix .tmp ~ .new .part .bak, the suffixed file created first) x all 25 source/destination backend pairs, fault-free over 5 destination pre-states (empty, same paths with older longer/shorter content, unrelated nodes, regular files where the source has directories, directories where the source has files: nil result => every source node present with its kind and bytes) and with EVERY single numbered call (open/Read/Write/Close/MkdirAll/ReadDir/IsFile/IsDir/Filespace, on source and destination; error and short-write variants) failing, for encrypted backends also with the failing layer below the encryption; thorough adds every pair of failing calls (memory) and preemption bound 2 for the concurrent tree copy. distinct = cases; all run the real code",
 		Run: run, Replay: replay,
 		Assumptions: []string{"fault positions are the calls crossing the Filespace/Reader/Writer interfaces (harness-side wrapper)", "a bool query 'fails' by answering false", "fshelper.Copy runs under the controlled scheduler: default schedule for the fault sweep, bounded preemptions for the fault-free case"}})
 }
